@@ -24,7 +24,15 @@ PLAN = dict(
          "SEQUENCE (GmSSL layout), PEM} parse back to equal, working keys. c10.sound: per round, every single-byte substitution "
          "(^01, ^80, 00, FF) and every truncation of the DER signature, h, S, the ten ciphertexts (5 modes x raw/ASN.1), wrapped keys "
          "(raw/DER) and the four key-exchange messages, identity mutants excluded, expected verdicts from the reference accept set, "
-         "plus wrong uid / hid / message / key. A case is distinct by its class key (configuration | kind / uid mod 64 / hid / KDF "
+         "plus wrong uid / hid / message / key; plus, per round, UNREDUCED ALIASES of every integer and field element a verifier / decryptor "
+         "decodes, on artefacts CONSTRUCTED to have them (scripted nonces tried deterministically until h < 2^256-N, S has x resp. y < 2^256-p, "
+         "C1 / RA / RB have both coordinates < 2^256-p): (h', S) for h' = h+N, h+2N, h+3N, h+256N, h+N*2^256, h+2^256, the edges 0, N, N+1, 2N, "
+         "2^256-1, 2^256, negative values and h in other widths, through Verify(h *big.Int, S) and - as minimal, 32-byte and zero-extended "
+         "OCTET STRING - through VerifyASN1 and pub.Verify; S, the wrapped-key point (65-byte, 64-byte, DER form), C1 of ciphertexts in the "
+         "five modes raw / ASN.1, RA (RespondKeyExchange) and RB (ConfirmResponder, then the honest run on the same objects) spelled x+p, y+p, "
+         "both; EnType of SM9Cipher spelled m+256, m+2^16, m+2^32, m-256, m-2^32, m+2^63, m+2^64 and with leading zero octets; verdicts from "
+         "the reference's strict accept set (value in range, canonical point, reference verification; a ciphertext candidate is refused or - "
+         "counted - opens to the same plaintext), honest artefacts accepted before and after. A case is distinct by its class key (configuration | kind / uid mod 64 / hid / KDF "
          "block class / mode / encoding / artefact chunk). "
          "c10.reuse (input-buffer independence and object histories of EVERY operation on long-lived key objects): the caller keeps uid, "
          "message, signature / ciphertext / received protocol message in ONE arena (fields at fixed offsets, every argument a sub-slice "
@@ -79,7 +87,9 @@ CLAIM = dict(
          "in seven dispatch configurations (AVX2, AVX, SSE, scalar, no-ADX, no-AES, pure Go); outputs are checked by round-trip laws, by a "
          "reference model of everything around the pairing (so a self-consistent but wrong KDF/hash is caught inside one build) and by "
          "byte-exact cross-configuration digests; every single-byte substitution and truncation of signatures, ciphertexts, wrapped keys "
-         "and key-exchange messages of the sampled rounds is refused (or decrypts to the same plaintext); all key encodings parse back. "
+         "and key-exchange messages of the sampled rounds is refused (or decrypts to the same plaintext), and so is every unreduced alias "
+         "(h + kN, coordinates + p, range edges) of the integers and points in signatures, wrapped keys, ciphertexts and key-exchange messages "
+         "that are constructed to have such aliases; all key encodings parse back. "
          "Input-buffer independence and object histories (c10.reuse, configurations AVX2, SSE, pure Go, 32-bit): user key generation, "
          "signing, verification, wrap / unwrap, encrypt / decrypt in all modes and encodings and sequential key exchanges run on long-lived "
          "key objects (generated, parsed, derived) with every argument held in one reused arena that is overwritten in place between calls "
